@@ -320,6 +320,7 @@ static void boolPairPhase(Runner& R, const std::string& name, const std::vector<
             const uint64_t ia = idx / nb, ib = idx % nb;
             const Operand &A = FA[ia], &B = FB[ib];
             long judged = 0;
+            bool nontrivialPair = false;
             // runs X op Y, judges it (if asked) and returns its area
             auto run = [&](const Operand& X, const Operand& Y, int o, bool judge) {
               const std::string prog = X.str() + " " + opName(OPS[o]) + " " + Y.str();
@@ -334,16 +335,22 @@ static void boolPairPhase(Runner& R, const std::string& name, const std::vector<
                 return area;
               }
               WMap ex(X.mem.size());
-              bool any = false;
+              bool both = false, onlyX = false, onlyY = false;
               for (size_t i = 0; i < ex.size(); ++i) {
-                ex[i] = (X.mem[i] == NEAR || Y.mem[i] == NEAR) ? NEAR : (int8_t)formula(OPS[o], X.mem[i], Y.mem[i]);
-                if (ex[i] == 1) any = true;
+                if (X.mem[i] == NEAR || Y.mem[i] == NEAR) {
+                  ex[i] = NEAR;
+                  continue;
+                }
+                ex[i] = (int8_t)formula(OPS[o], X.mem[i], Y.mem[i]);
+                both |= X.mem[i] && Y.mem[i];
+                onlyX |= X.mem[i] && !Y.mem[i];
+                onlyY |= !X.mem[i] && Y.mem[i];
               }
               std::string why = judgeSamples(out, ex, judged);
               if (why.empty()) why = ringDefects(out, marginOf(r), 1e-6L);
               if (!why.empty()) c.viol("bool:" + prog, prog, why + "\n" + polysStr(out));
               c.distinct(canonPolysHash(out) ^ mix64(o + 1));
-              if (any && !out.empty()) c.nontrivial(hash_str(prog));
+              if (both && onlyX && onlyY) nontrivialPair = true;  // the operands properly overlap
               return area;
             };
             double ab[3], ba[3] = {0, 0, 0};
@@ -368,6 +375,7 @@ static void boolPairPhase(Runner& R, const std::string& name, const std::vector<
               if (mixed) areaViol("bool-diff-area-swapped", "Area(B-A)+Area(B^A) vs Area(B)", ba[1] + ba[2], B.area);
             }
             c.count("points_judged", judged);
+            if (nontrivialPair) c.nontrivial(mix64(idx + 1));
             if (idx % 50021 == 7) c.sample(A.str() + " {+,-,^} " + B.str());
           },
           {"transitions", "points_judged", "unjudged"}, 24);
@@ -464,6 +472,7 @@ int main(int argc, char** argv) {
               for (size_t k = 0; k < wm.size(); ++k)
                 wm[k] = (wm3[i1][k] == NEAR || wm3[i2][k] == NEAR) ? NEAR : (int8_t)(wm3[i1][k] + wm3[i2][k]);
               long judged = 0;
+              bool nonEmpty = false;
               for (int eo = 0; eo < 2; ++eo) {
                 const std::string prog = std::string("fill:") + (eo ? "eo:" : "pos:") + ringStr(r1) + "+" + ringStr(r2);
                 c.describe(prog);
@@ -478,12 +487,13 @@ int main(int argc, char** argv) {
                 if (why.empty()) why = ringDefects(out, marginOf(cs), 1e-6L);
                 if (!why.empty()) c.viol(prog, prog, why + "\n" + polysStr(out));
                 c.distinct(canonPolysHash(out));
-                if (!out.empty()) c.nontrivial(mix64(idx * 2 + eo + 1));
+                if (!out.empty()) nonEmpty = true;
               }
               c.count("points_judged", judged);
+              if (nonEmpty) c.nontrivial(mix64(idx + 1));
               if (idx % 2500009 == 4242) c.sample("fill:{pos,eo}:" + ringStr(r1) + "+" + ringStr(r2));
             },
-            {"transitions", "points_judged", "unjudged"}, 24);
+            {"transitions", "points_judged", "unjudged"}, 25);
   }
 
   // ---------- Booleans of regularized contours
@@ -542,7 +552,7 @@ int main(int argc, char** argv) {
 
   // BatchBoolean over all ordered triples
   {
-    std::vector<int> radix = {nr, nr, nr, 3};
+    std::vector<int> radix = {asanSubset ? 6 : nr, nr, nr, 3};  // ASan: first operand from the 6 rectangles with x in [0,1]
     R.phase("rect-batch3", product(radix), 108,
             [&](uint64_t idx, Ctx& c) {
               auto d = digits(idx, radix);
